@@ -33,7 +33,8 @@ pub struct Wire<'a> {
     pub values_per_type: usize,
     pub phases: Vec<usize>,
     /// valid encodings collected for the corruption stream: (bo, offset, ty, full buffer, typed decoder)
-    pub pool: Vec<(ByteOrder, usize, Ty, Vec<u8>)>,
+    /// (byte order, offset, type, encoding, the typed decoder of the catalogue type the encoding came from)
+    pub pool: Vec<(ByteOrder, usize, Ty, Vec<u8>, Option<fn(ByteOrder, usize, &[u8]) -> DecRes>)>,
     pub pool_cap: usize,
     pub pool_rate: u64,
 }
@@ -60,6 +61,12 @@ pub fn dec_param(bo: ByteOrder, off: usize, buf: &[u8], ty: &Ty) -> DecRes {
         }
     })
     .unwrap_or(Err(()))
+}
+
+/// the typed decoder of catalogue type `T` as a plain function: (consumed, canonical rendering of the value) or reject
+pub fn typed_dec_fn<T: Cat>(bo: ByteOrder, off: usize, buf: &[u8]) -> DecRes {
+    let ty = T::ty();
+    dec_typed::<T>(bo, off, buf).map(|(n, b)| (n, b.to_val().canon(&ty).show()))
 }
 
 pub fn dec_typed<T: Cat>(bo: ByteOrder, off: usize, buf: &[u8]) -> Result<(usize, T), ()> {
@@ -203,7 +210,7 @@ impl<'a> Wire<'a> {
                     }
                     // a few encodings of EVERY catalogue type go into the corruption pool (not just the first types)
                     if self.pool.len() < self.pool_cap && full.len() <= 96 && self.rng.chance(1, self.pool_rate) {
-                        self.pool.push((bo, phase, ty.clone(), full.clone()));
+                        self.pool.push((bo, phase, ty.clone(), full.clone(), Some(typed_dec_fn::<T> as fn(ByteOrder, usize, &[u8]) -> DecRes)));
                     }
                 }
                 // ---- whole body: `phase` byte parameters, the value, a sentinel -----------------
@@ -312,7 +319,7 @@ impl<'a> Wire<'a> {
                 self.dec_case(bo, phase, &ty, &full, None, true);
             }
             if self.pool.len() < self.pool_cap && full.len() <= 96 && self.rng.chance(1, 3) {
-                self.pool.push((bo, phase, ty.clone(), full));
+                self.pool.push((bo, phase, ty.clone(), full, None));
             }
         }
     }
@@ -679,7 +686,7 @@ impl<'a> Wire<'a> {
     /// subset over the WHOLE message is taken (never just its first bytes)
     pub fn run_corruptions(&mut self, per_message_cap: usize) {
         let pool = std::mem::take(&mut self.pool);
-        for (bo, off, ty, full) in &pool {
+        for (bo, off, ty, full, typed) in &pool {
             let start = *off;
             let mut faults: Vec<(usize, u8)> = Vec::new();
             for i in start..full.len() {
@@ -718,11 +725,25 @@ impl<'a> Wire<'a> {
                     _ => m.truncate(i),
                 }
                 self.out.hit("corruption");
-                self.dec_case(*bo, *off, ty, &m, None, true);
+                // the typed decoder of the catalogue type the encoding came from judges the corrupted bytes too
+                // (a typed variant wrapper fixes the CONTENT type of its variant: when the fault changes the variant's
+                // signature the typed decoder rightly refuses what the generic ones accept - only its acceptances count then)
+                let mut t = typed.map(|f| f(*bo, *off, &m));
+                if ty.sig().contains('v') && matches!(t, Some(Err(()))) {
+                    t = None;
+                }
+                if t.is_some() {
+                    self.out.hit("corruption_typed_decoder_too");
+                }
+                self.dec_case(*bo, *off, ty, &m, t, true);
             }
             // other byte order, other offset phase: the same bytes must be re-judged
             let other = if *bo == ByteOrder::LittleEndian { ByteOrder::BigEndian } else { ByteOrder::LittleEndian };
-            self.dec_case(other, *off, ty, full, None, true);
+            let mut t = typed.map(|f| f(other, *off, full));
+            if ty.sig().contains('v') && matches!(t, Some(Err(()))) {
+                t = None;
+            }
+            self.dec_case(other, *off, ty, full, t, true);
         }
         self.pool = pool;
     }
